@@ -848,6 +848,10 @@ type deadlineContextWriter struct {
 
 	// quit closed once the connection is closed.
 	quit chan struct{}
+
+	// broken is set (while holding the semaphore) once a frame was only partially written.
+	// The byte stream is then corrupt, so no further frame may follow on this connection.
+	broken error
 }
 
 // writeContext implements contextWriter.
@@ -868,13 +872,21 @@ func (c *deadlineContextWriter) writeContext(ctx context.Context, p []byte) (int
 		<-c.semaphore
 	}()
 
+	if c.broken != nil {
+		return 0, c.broken
+	}
+
 	if c.timeout > 0 {
 		err := c.w.SetWriteDeadline(time.Now().Add(c.timeout))
 		if err != nil {
 			return 0, err
 		}
 	}
-	return c.w.Write(p)
+	n, err := c.w.Write(p)
+	if err != nil && n > 0 {
+		c.broken = fmt.Errorf("gocql: connection unusable after a partial write: %w", err)
+	}
+	return n, err
 }
 
 func newWriteCoalescer(conn deadlineWriter, writeTimeout, coalesceDuration time.Duration,
@@ -957,10 +969,18 @@ func (w *writeCoalescer) writeFlusherImpl(timerC <-chan time.Time, resetTimer fu
 
 	var buffers net.Buffers
 	var resultChans []chan<- writeResult
+	// broken is set once a frame was only partially written. The byte stream is then
+	// corrupt, so no further frame may follow on this connection.
+	var broken error
 
 	for {
 		select {
 		case req := <-w.writeCh:
+			if broken != nil {
+				// resultChan has capacity 1, so it does not block.
+				req.resultChan <- writeResult{n: 0, err: broken}
+				continue
+			}
 			buffers = append(buffers, req.data)
 			resultChans = append(resultChans, req.resultChan)
 			if !running {
@@ -981,7 +1001,7 @@ func (w *writeCoalescer) writeFlusherImpl(timerC <-chan time.Time, resetTimer fu
 			return
 		case <-timerC:
 			running = false
-			w.flush(resultChans, buffers)
+			broken = w.flush(resultChans, buffers)
 			buffers = nil
 			resultChans = nil
 			if w.testFlushedHook != nil {
@@ -991,7 +1011,9 @@ func (w *writeCoalescer) writeFlusherImpl(timerC <-chan time.Time, resetTimer fu
 	}
 }
 
-func (w *writeCoalescer) flush(resultChans []chan<- writeResult, buffers net.Buffers) {
+// flush writes the buffers and reports the outcome to each writer. It returns a non-nil
+// error if one of the buffers was written only partially.
+func (w *writeCoalescer) flush(resultChans []chan<- writeResult, buffers net.Buffers) (torn error) {
 	// Flush everything we have so far.
 	if w.timeout > 0 {
 		err := w.c.SetWriteDeadline(time.Now().Add(w.timeout))
@@ -1002,7 +1024,7 @@ func (w *writeCoalescer) flush(resultChans []chan<- writeResult, buffers net.Buf
 					err: err,
 				}
 			}
-			return
+			return nil
 		}
 	}
 	// Copy buffers because WriteTo modifies buffers in-place.
@@ -1027,9 +1049,13 @@ func (w *writeCoalescer) flush(resultChans []chan<- writeResult, buffers net.Buf
 				n:   int(n),
 				err: err,
 			}
+			if n > 0 {
+				torn = fmt.Errorf("gocql: connection unusable after a partial write: %w", err)
+			}
 			n = 0
 		}
 	}
+	return torn
 }
 
 // addCall attempts to add a call to c.calls.
